@@ -631,7 +631,7 @@ class PayloadDict(ChunkedDataDict):
                 self.add_global(pinst)
 
     def render_pkg(self, pkg, pre_defaults=()):
-        items = self._dict.get(atom.atom(pkg.key))
+        items = self._dict.get(pkg.key)
         if items is None:
             items = self._global_settings
         s = set(pre_defaults)
